@@ -541,6 +541,10 @@ fn systematic() -> Vec<Prog> {
             ("reset-all-vs-harvest-then-remark", vec![vec![Reset], vec![Harvest, SetBit(5)]]),
             ("reset_range-vs-harvest-then-remark", vec![vec![ResetRange(4, 3)], vec![Harvest, SetBit(5)]]),
             ("clone-vs-harvest", vec![vec![Clone], vec![Harvest, SetBit(5)]]),
+            // the mark that would make the word completely dirty (page 63 is the clean one of "full-but-one")
+            ("completing-mark-vs-two-harvests", vec![vec![SetBit(63)], vec![Harvest, Harvest]]),
+            ("completing-range-mark-vs-harvest-then-remark", vec![vec![MarkRange(62, 2)], vec![Harvest, SetBit(5), Harvest]]),
+            ("completing-mark_dirty-vs-reset-then-harvest", vec![vec![MarkDirty(63, 1)], vec![ResetRange(3, 2), Harvest]]),
         ];
         for (sn, threads) in shapes {
             if iname == "full-two-words" && sn.starts_with("reset_range") {
